@@ -345,6 +345,48 @@ class Body:
         d = self.dominators()
         return b in d and a in d[b]
 
+    def postdominators(self):
+        """pdom[b] = blocks every way from b to a `return` passes through (b included); only blocks that can reach a return are
+        keys - ways that end in a panic do not count, as everywhere in this engine"""
+        if getattr(self, '_pdom', None) is None:
+            reach = self.reachable()
+            rets = [x for x in reach if self.term(x)['k'] == 'return']
+            live = set()
+            todo = list(rets)
+            while todo:
+                x = todo.pop()
+                if x in live:
+                    continue
+                live.add(x)
+                todo.extend(p for p in self.preds(x) if p in reach)
+            pdom = {x: set(live) for x in live}
+            for r in rets:
+                pdom[r] = {r}
+            changed = True
+            while changed:
+                changed = False
+                for x in live:
+                    if x in rets:
+                        continue
+                    ss = [y for y in self.succs(x) if y in live]
+                    if not ss:
+                        continue
+                    new = set.intersection(*[pdom[y] for y in ss]) | {x}
+                    if new != pdom[x]:
+                        pdom[x] = new
+                        changed = True
+            self._pdom = pdom
+        return self._pdom
+
+    def control_equivalent(self, a, b):
+        """a and b run the same number of times: one dominates the other and is post-dominated by it"""
+        pd = self.postdominators()
+        if a == b:
+            return True
+        if self.dominates(a, b) and a in pd and b in pd[a]:
+            return True
+        return self.dominates(b, a) and b in pd and a in pd[b]
+
     def rpo(self):
         seen, order = set(), []
         stack = [(0, iter(self.succs(0)))]
